@@ -73,6 +73,11 @@ def plan(seed, subbatch):
     pre, ops, fired, rows = planlib.stream_and_schedule(seed, subbatch, n, base_s, start, faults, burst, 0.0, extras,
                                                         encodings=encs, preload=cfg.choice((0, 0, 1, 3)))
     fired["observer_calls"] += n_probe
+    if kind == "indicator" and sub_rng(seed, "raw-manager").random() < 0.2:
+        rm = sub_rng(seed, "raw-manager-at")
+        for op in ops:
+            if op["op"] == "append" and op.get("candles") and rm.random() < 0.3:
+                op["raw_manager"] = True
     fx = sub_rng(seed, "features")
     if fx.random() < 0.15:
         # a candlestick type: converted in place, raw values kept aside - none of which a read may disturb
@@ -198,6 +203,18 @@ def execute(trace, ctx=None):
                 if rows and subj.delivered and rows[0][0] < subj.delivered[-1][0]:
                     continue
                 enc = op.get("enc", "candles")
+                if op.get("raw_manager") and subj.kind == "indicator" and rows:
+                    # the candles reach the candle manager directly: the list grows, nothing is calculated, the
+                    # cursor stays where it was - a state read-only calls must leave alone like any other
+                    try:
+                        for mm in (plain, free, subj):
+                            mm.delivered.extend(rows)
+                            run.call(len(mm.delivered) * 6, mm.subject.candle_manager.append, encode(rows, "candles"))
+                    except LibError as e:
+                        raise Discard("manager-append-raised:" + e.type)
+                    run.stats["reach:list_grown_without_calculation"] += 1
+                    n_appends += 1
+                    continue
                 # --- the Candle-fed twin first: if IT raises the stream itself is C09's business
                 try:
                     plain.append(rows, "candles")
